@@ -156,10 +156,18 @@ def run(tier, seed):
     t10, z10, l10 = mutants.link_source()          # names with '-', '_', '+', links in every relation to zones
     # two names with the same djb2 value ('az' and 'bY' contribute 33*97+122 = 33*98+89): the compiler must refuse the source
     # (it raises 'Hash collision') or emit unique ids - never two zones with one id
+    # names whose djb2 value is tiny (below the code of their last character: 0, 7, 50, 100) - the last round of the hash
+    # must be reduced like the others; plus every name of the baseline through the compiler's own hash_name()
+    from tzdb.transformer import hash_name as _hn
+    tiny = ['America/cqkhujt', 'Verif/cjjxvqa', 'Asia/kguhcvx', 'Verif/mirubng', 'Europe/dafsmhb']
+    for nm in tiny + sorted(baseline):
+        if _hn(nm) != djb2(nm):
+            rep.violation('c11:hash_name-not-djb2', {'name': nm, 'hash_name': _hn(nm), 'djb2': djb2(nm)})
+    tsmall = ''.join('Zone\t%s\t%d:00\t-\tT%02d\n' % (nm, i + 1, i) for i, nm in enumerate(tiny))
     tcol = 'Zone\tDemo/Caz\t1:00\t-\tCAZ\nZone\tDemo/CbY\t2:00\t-\tCBY\nZone\tDemo/Other\t3:00\t-\tOTH\n'
     assert djb2('Demo/Caz') == djb2('Demo/CbY')
     refused = 0
-    for src_text, scope in [(text, 'extended'), (text, 'basic'), (t10, 'extended'), (t10, 'basic'), (tcol, 'extended'), (tcol, 'basic')]:
+    for src_text, scope in [(text, 'extended'), (text, 'basic'), (t10, 'extended'), (t10, 'basic'), (tcol, 'extended'), (tcol, 'basic'), (tsmall, 'extended'), (tsmall, 'basic')]:
         try:
             comp = pipeline.compile_text(src_text, scope)
         except Exception as e:
@@ -169,7 +177,12 @@ def run(tier, seed):
         d = tempfile.mkdtemp(prefix='verif-c11-')
         try:
             pipeline.generate(comp, 'arduino', d, db_namespace='vdb', buf_sizes={z: 7 for z in comp.tzdb['zones_map']})
-            dumped = tabledump.dump(d, 'vdb', scope == 'extended')
+            try:
+                dumped = tabledump.dump(d, 'vdb', scope == 'extended')
+            except runner.Broken as e:
+                # generated tables that do not build (e.g. an id that does not fit 32 bits) are a finding, not a harness failure
+                rep.violation('c11:fresh-source:generated-tables-do-not-build', {'scope': scope, 'zones': sorted(comp.tzdb['zones_map'])[:6], 'error': str(e)[-600:]})
+                continue
             hdr = open(os.path.join(d, 'zone_infos.h')).read()
         finally:
             shutil.rmtree(d, ignore_errors=True)
